@@ -285,7 +285,7 @@ impl Check for C01Check {
     fn rule(&self) -> String {
         format!(
             "Phase exhaustive: every AST with at most k nodes (k=4 quick, 5 thorough) over {} leaves (number, float, text, symbol, unit, $?, $!, $, two identifiers), {} unary constructs (arithmetic/bitwise/logical prefixes, internal accessors, empty apply, {{ }}, ^~) and {} binary constructs \
-             (arithmetic, bitwise, comparison, equality, logical, pair, space list, comma list, access, apply, apply-to, conditionals, else, `;`, blank line), in size order, printed with minimal parentheses from the independent operator table (the print is re-read by the reference parser and must give the AST back), spaced layout, x 2 input values x 2 data implementations. \
+             (arithmetic, bitwise, comparison, equality, logical, pair, space list, comma list, access, apply, apply-to, conditionals, else, `;`, blank line), in size order, printed with minimal parentheses from the independent operator table (the print is re-read by the reference parser and must give the AST back), spaced layout, x 2 input values (all 7 for ASTs of at most 3 nodes) x 2 data implementations. \
              Phase random: larger ASTs from a proptest tape (depth <= 6; keyed pairs, lists, conditional chains with defaults, applied nested expressions, counter-bounded reapply loops, side-effect blocks, sequencing), spaced and tight layouts, x 3 of 7 input values x 2 implementations. \
              Oracle: read-back of the final current value must be structurally identical to the value a tree-walking reference evaluator assigns to the same text; a well-formed program must not be rejected, fail at run time or exceed 16x the reference's step count. \
              Programs whose meaning the reference leaves undefined (ill-formed shapes, recorded open findings such as else chains without default or list index past the end) are discarded and counted. \
@@ -317,7 +317,12 @@ impl Check for C01Check {
                     None => return,
                 };
                 ctx.class("exhaustive");
-                self.judge_ast(&ast, &[0, 1], &[Layout::Spaced], ctx);
+                if ast.size() <= 3 {
+                    // small programs: every input value (pair, scalar, text, plain and mixed lists too)
+                    self.judge_ast(&ast, &[0, 1, 2, 3, 4, 5, 6], &[Layout::Spaced], ctx);
+                } else {
+                    self.judge_ast(&ast, &[0, 1], &[Layout::Spaced], ctx);
+                }
             }
             (1, Input::Tape(t)) => {
                 let mut t = Tape::new(t);
